@@ -85,6 +85,12 @@ func plan(tier string, seed int64) []driver.Case {
 				}
 				cases = append(cases, driver.Case{ID: fmt.Sprintf("op/%s/v%d/%s", e.Name, nv, end),
 					P: map[string]string{"kind": "op", "entry": e.Name, "nv": fmt.Sprint(nv), "end": end}})
+				// several sources: the same with the main source speaking first (the one that wins a race,
+				// opens a combination, ... is then source 0 and not a secondary one)
+				if e.NSrc >= 2 && nv >= 1 {
+					cases = append(cases, driver.Case{ID: fmt.Sprintf("op/%s/v%d/%s/main-first", e.Name, nv, end),
+						P: map[string]string{"kind": "op", "entry": e.Name, "nv": fmt.Sprint(nv), "end": end, "order": "main-first"}})
+				}
 			}
 		}
 		// multi-source operators: every non-empty subset of the sources has a teardown that panics;
@@ -743,15 +749,23 @@ func runOp(c driver.Case) driver.Result {
 			guarded(fmt.Sprintf("emitting %s into source %s", n, s.Name), func() { defer func() { recover() }(); s.Send(n) })
 		}
 	}
-	// every secondary source contributes one value first
-	for i := 1; i < len(srcs); i++ {
-		inject(srcs[i], src.Notif{K: rec.Next, V: 1})
+	// every secondary source contributes one value first (or, "main-first", after the main source's values)
+	secondaries := func() {
+		for i := 1; i < len(srcs); i++ {
+			inject(srcs[i], src.Notif{K: rec.Next, V: 1})
+		}
+	}
+	if c.Get("order") != "main-first" {
+		secondaries()
 	}
 	for v := 0; v < nv; v++ {
 		inject(srcs[0], src.Notif{K: rec.Next, V: 1 + v%2})
 		if e.Flags.Has(catalog.Blocks) {
 			quiesce.Settle(500 * time.Millisecond)
 		}
+	}
+	if c.Get("order") == "main-first" {
+		secondaries()
 	}
 	closedBy := end
 	switch end {
